@@ -53,3 +53,27 @@ Proof.
   intros H. destruct datetime_order_refuted_month_length as [a [b [Va [Vb [L I]]]]].
   destruct (H a b Va Vb) as [E _]. rewrite L in E. symmetry in E. apply Z.ltb_lt in E. lia.
 Qed.
+
+(* ---- xs:time: the same instant written with two offsets ---------------------- *)
+Definition tm (h mi s f : Z) (o : option Z) := mk_xtime h mi s f o.
+Definition t_instant (x : xtime) : Z := time_ns (t_hour x) (t_minute x) (t_second x) (t_frac x) (t_offset x).
+
+(* hours/minutes/seconds, the fraction and the offset are added in floating point one after the
+   other: two spellings of one instant round differently *)
+Lemma time_eq_refuted_offsets :
+  exists a b, valid_time_value a = true /\ valid_time_value b = true /\
+              t_instant a = t_instant b /\ time_eq a b = false.
+Proof.
+  exists (tm 9 7 31 817077202 (Some 45)), (tm 8 22 31 817077202 (Some 0)).
+  vm_compute. repeat split; reflexivity.
+Qed.
+
+Definition time_order_agrees_statement : Prop :=
+  forall a b, valid_time_value a = true -> valid_time_value b = true ->
+    time_lt a b = (t_instant a <? t_instant b) /\ time_eq a b = (t_instant a =? t_instant b).
+
+Theorem time_order_agrees_refuted : ~ time_order_agrees_statement.
+Proof.
+  intros H. destruct time_eq_refuted_offsets as [a [b [Va [Vb [I E]]]]].
+  destruct (H a b Va Vb) as [_ Q]. rewrite E, I, Z.eqb_refl in Q. discriminate.
+Qed.
